@@ -11,6 +11,7 @@ from sa.rules import cli as CLI
 from sa.rules import cli2 as C2
 from sa.rules import ctor as CT
 from sa.rules import det as D
+from sa.rules import falsy as FA
 from sa.rules import file as F
 from sa.rules import mod as M
 from sa.rules import null as N
@@ -33,6 +34,17 @@ def named(f, name, **kw):
     return g
 
 
+def scope_of(*roots):
+    return lambda prog: prog.reachable([prog.fn(r) for r in roots])
+
+
+def scoped(rule, name, *roots):
+    def run(prog, rep, tier):
+        return rule(prog, rep, tier, scope=scope_of(*roots)(prog))
+    run.__name__ = name
+    return run
+
+
 DET1_ACCEPTED = {
     ("parser_utils._join_non_none", "iter:all_keys"):
         "inserts into a parameter dict (level L2) whose key order is unobservable: DET-1b checks that nothing iterates / serialises such dicts",
@@ -49,7 +61,7 @@ spec("C01", "Docstring round trip",
      not_decided="IR equality after emit->parse (values); prose that itself contains a marker of another style; exceptions other than the definite None dereference")
 
 spec("C02", "Config-class round trip",
-     [named(O.rule_order, "rule_order_class", only=("emit.class_",)), TB.rule_table_cvar],
+     [named(O.rule_order, "rule_order_class", only=("emit.class_",)), TB.rule_table_cvar, scoped(FA.rule_falsy, "falsy_class", "emit.class_", "parse.class_")],
      "Necessary conditions: (ORDER) the class emitter produces exactly one attribute per parameter, in mapping order, never None, named by the parameter's key, with "
      "no filter/sort between the mapping and the attribute list; (TABLE-cvar) the ':cvar' marker and the reserved 'return_type' attribute written by the class "
      "emitter are exactly what the class and function parsers substitute / pop back.",
@@ -58,7 +70,8 @@ spec("C02", "Config-class round trip",
      not_decided="preservation of values/types/prose; the documented zero-value normalisation; the parser's merge of docstring- and attribute-derived entries")
 
 spec("C03", "Function / method round trip",
-     [named(O.rule_order, "rule_order_function", only=("emit.function",)), A.rule_align_emit, A.rule_align_parse, TB.rule_table_kind, N.rule_null1, N.rule_null2],
+     [named(O.rule_order, "rule_order_function", only=("emit.function",)), A.rule_align_emit, A.rule_align_parse, TB.rule_table_kind, N.rule_null1, N.rule_null2,
+      scoped(FA.rule_falsy, "falsy_function", "emit.function", "parse.function")],
      "Necessary conditions: (ORDER) one argument per non-**kwargs parameter in order, named by the key, with the name-only **kwargs partition and its complement both "
      "consumed; (ALIGN-emit) defaults/kw_defaults are built one per argument from the same sequence (symbolic length identities over all paths); (ALIGN-parse) "
      "signature defaults are padded to exactly the argument count and keep their positions; (TABLE-kind) self/cls/static and the **kwargs suffix agree between "
@@ -68,7 +81,8 @@ spec("C03", "Function / method round trip",
      not_decided="equality of types/prose/defaults, return interpolation text, indent levels")
 
 spec("C04", "argparse round trip",
-     [named(O.rule_order, "rule_order_argparse", only=("emit.argparse_function",)), TB.rule_table_argparse],
+     [named(O.rule_order, "rule_order_argparse", only=("emit.argparse_function",)), TB.rule_table_argparse,
+      scoped(FA.rule_falsy, "falsy_argparse", "emit.argparse_function", "parse.argparse_ast"), scoped(FA.rule_stripset, "stripset_argparse", "emit.argparse_function", "parse.argparse_ast")],
      "Necessary conditions: (ORDER) exactly one add_argument call per parameter, in order, carrying '--<key>'; (TABLE-argparse) every keyword by which the emitter "
      "carries IR information is read by the parser, the '--' prefix added is the prefix stripped, the recogniser predicates test both receiver and attribute the "
      "emitter builds, written action constants are understood.",
@@ -77,7 +91,7 @@ spec("C04", "argparse round trip",
      not_decided="required/default/Optional interplay, choices quoting, numeric vs string defaults (value-level)")
 
 spec("C06", "Emitted code is valid Python",
-     [A.rule_align_emit, O.rule_order, CT.rule_ctor],
+     [A.rule_align_emit, O.rule_order, CT.rule_ctor, scoped(FA.rule_falsy, "falsy_emit", "emit.class_", "emit.function", "emit.argparse_function")],
      "Necessary conditions, for all inputs: (ALIGN-emit) every ast.arguments(...) the package builds satisfies Python's length invariants and aligns defaults with "
      "arguments as symbolic identities; (ORDER) names/order/count of attributes, arguments and options are those of the IR by construction; (CTOR) every ast node "
      "construction supplies the mandatory _fields of the running interpreter.",
@@ -96,7 +110,7 @@ spec("C07", "Parsing faithful to Python's view",
      not_decided="that the order is the source order (documented-first is value-level), precedence of documented information, prose attribution, the inspect path")
 
 spec("C08", "Fixed point after one pass",
-     [TB.rule_table_announce],
+     [TB.rule_table_announce, scoped(FA.rule_falsy, "falsy_defaults", "defaults_utils.set_default_doc", "defaults_utils.extract_default", "emitter_utils.interpolate_defaults")],
      "Necessary condition: (TABLE-announce b) each writer of the default sentence recognises its own sentence as 'already present' - either by calling the reader "
      "itself or by a substring of the written phrase - otherwise one more sentence is appended on every pass.",
      floors={"TABLE-announce": 3},
@@ -123,7 +137,7 @@ spec("C10", "sync idempotent / truth untouched / truthful report",
      not_decided="byte identity of a second run (needs emit.parse to be a fixed point: value-level); growth by repeated append when the lookup cannot find what was appended")
 
 spec("C11", "sync preserves the rest",
-     [M.rule_modf, F.rule_file5, V.rule_visit2, V.rule_visit6, V.rule_visit4],
+     [named(M.rule_modf, "rule_modf_sync", workers=("conformance._conform_filename",)), F.rule_file5, V.rule_visit2, V.rule_visit6, V.rule_visit4],
      "Necessary conditions: (MOD-F) between reading a target module and writing it back the only field-visible writes on the tree are the replacer's or identity-preserving "
      "re-listings, the reader's docstring re-indent being disabled at the call site; (FILE-5) appended text starts on a new line so the file still parses; (VISIT-2) at most "
      "one node is replaced; (VISIT-6) locations are compared by exact equality; (VISIT-4) locations are built inductively, so only the addressed node can match.",
@@ -151,7 +165,7 @@ spec("C13", "Non-interference through shared inputs",
      not_decided="value-level effects of reads; helpers reached only through unresolved dynamic calls")
 
 spec("C14", "sync_properties changes exactly the addressed property",
-     [F.rule_file1_input, F.rule_file7, M.rule_modf, M.rule_modf2, CLI.rule_cli1],
+     [F.rule_file1_input, F.rule_file7, named(M.rule_modf, "rule_modf_sync_properties", workers=("sync_properties.sync_properties",)), M.rule_modf2, CLI.rule_cli1],
      "Necessary conditions: (FILE-1) no value derived from the input filename reaches the path of a write sink; (FILE-7) the single write of the output file comes after all "
      "pairs and every returning path after the transformer ran tests `.replaced` with a raising failing branch; (MOD-F) only the addressed node is field-mutated on the "
      "read->write path; (MOD-F2) the node taken from the input tree is copied before it is mutated/grafted; (CLI-1) CLI dests bind to the worker's signature.",
@@ -178,7 +192,7 @@ spec("C16", "Bodies carried verbatim",
      not_decided="positional special cases of body splicing (slices of the runtime body list), trailing-return handling")
 
 spec("C17", "Defaults through prose",
-     [TB.rule_table_announce],
+     [TB.rule_table_announce, scoped(FA.rule_falsy, "falsy_defaults", "defaults_utils.set_default_doc", "defaults_utils.extract_default", "emitter_utils.interpolate_defaults")],
      "Necessary conditions: (TABLE-announce a) the sentence the writer produces contains an announcement the reader looks for; (c) the docstring writer skips writing a default "
      "only when the prose contains something the reader would recognise as an announcement (decided by calling the reader itself, or by substrings that contain an announcement).",
      floors={"TABLE-announce": 3},
